@@ -25,8 +25,9 @@ RULE = ('Each run = one configuration drawn from EVERY constructor argument of '
 COMPONENTS = dict(common.DS_COMPONENTS)
 ASSUMPTIONS = [
     'explicit rejection = an exception raised by a `raise` statement, or an '
-    '`assert` with a message, in a frame of the repository; anything else '
-    '(bare assert, UnboundLocalError, IndexError, errors raised from inside '
+    '`assert` whose message contains words (a string literal), in a frame of '
+    'the repository; anything else (bare assert, assert that only dumps a '
+    'value, UnboundLocalError, IndexError, errors raised from inside '
     'JAX/XLA) is an internal error',
     'LOBPCG is only drawn for matrix sizes its JAX implementation accepts']
 EXPECTED_PROBES = ['explicit_rejection', 'success', 'scan_carry_checked',
@@ -150,17 +151,52 @@ def classify(e):
   if in_repo:
     if line.startswith('raise ') or ' raise ' in line:
       return 'explicit', where, line
-    if isinstance(e, AssertionError) and str(e).strip():
-      return 'explicit', where, line
-    # multi-line raise/assert statements: look a few lines up
+    if isinstance(e, AssertionError):
+      # an assertion is an explanatory rejection only if its message says
+      # something in words; `assert cond, some_value` that merely dumps a value
+      # (e.g. "AssertionError: [0, 1, 2]") is an internal consistency check
+      # going off
+      if _assert_has_words(last.filename, last.lineno):
+        return 'explicit', where, line
+      return 'internal', where, line
+    # multi-line raise statements: look a few lines up
     for k in range(1, 6):
       l2 = linecache.getline(last.filename, last.lineno - k).strip()
       if l2.startswith('raise ') and isinstance(e, (ValueError, NotImplementedError,
                                                     TypeError)):
         return 'explicit', where, l2
-      if l2.startswith('assert ') and str(e).strip():
-        return 'explicit', where, l2
   return 'internal', where, line
+
+
+_AST_CACHE = {}
+
+
+def _assert_has_words(filename, lineno):
+  """True iff the assert statement covering `lineno` carries a message with a
+  string literal that contains a word."""
+  import ast
+  import re
+  if filename not in _AST_CACHE:
+    try:
+      _AST_CACHE[filename] = ast.parse(open(filename).read())
+    except (OSError, SyntaxError):
+      _AST_CACHE[filename] = None
+  tree = _AST_CACHE[filename]
+  if tree is None:
+    return False
+  best = None
+  for node in ast.walk(tree):
+    if isinstance(node, ast.Assert) and node.lineno <= lineno <= (
+        node.end_lineno or node.lineno):
+      if best is None or node.lineno >= best.lineno:
+        best = node
+  if best is None or best.msg is None:
+    return False
+  for sub in ast.walk(best.msg):
+    if isinstance(sub, ast.Constant) and isinstance(sub.value, str) and \
+        re.search(r'[A-Za-z]{3,}', sub.value):
+      return True
+  return False
 
 
 def _sig(tree):
